@@ -6048,7 +6048,12 @@ static const struct dtb_row dtb_table[] = {
 
 #define DTB_NUM_ROWS (sizeof(dtb_table) / sizeof(dtb_table[0]))
 
-/* run one row in a forked child; returns 0 = OK, 1 = wrong errno, 2 = crash */
+#ifdef K12_EXTRA
+#include "k12_direct_extra.inc"
+#endif
+
+/* run one row in a forked child; returns 0 = OK, 1 = wrong errno, 2 = crash.
+ * Rows with expected == -1 (generated second-order rows) only have to return without faulting. */
 static int
 dtb_run_row(IMB_MGR *m, const char *arch, const struct dtb_row *r)
 {
@@ -6108,9 +6113,9 @@ dtb_run_row(IMB_MGR *m, const char *arch, const struct dtb_row *r)
                 res = 1;
         } else {
                 snprintf(gotbuf, sizeof(gotbuf), "%d", got);
-                res = (got == r->expected) ? 0 : 1;
+                res = (got == r->expected || r->expected == -1) ? 0 : 1;
         }
-        printf("D %s %s %s %s expected=%d got=%s %s\n", arch, r->id, r->fname, r->desc,
+        printf("%s %s %s %s %s expected=%d got=%s %s\n", r->expected == -1 ? "DX" : "D", arch, r->id, r->fname, r->desc,
                r->expected, gotbuf, res == 0 ? "OK" : "FAIL");
         return res;
 }
@@ -6159,6 +6164,19 @@ run_d(void)
                         if (res == 2)
                                 crash++;
                 }
+#ifdef K12_EXTRA
+                for (i = 0; i < DTX_NUM_ROWS; i++) {
+                        const int res = dtb_run_row(m, archs[a].name, &dtx_table[i]);
+
+                        rows++;
+                        if (res == 0)
+                                ok++;
+                        else
+                                fail++;
+                        if (res == 2)
+                                crash++;
+                }
+#endif
                 free_mb_mgr(m);
         }
         printf("D-SUMMARY rows=%lu ok=%lu fail=%lu crash=%lu\n", rows, ok, fail, crash);
